@@ -9,6 +9,20 @@ use std::collections::BTreeMap;
 
 const MODS: [&str; 3] = ["a", "b", "c"];
 
+/// every name the interpreter defines before a program runs
+pub const BUILTIN_NAMES: [&str; 30] = [
+    "clock", "type", "print", "Type", "Object", "Nil", "Bool", "Num", "Func", "BuiltIn", "Method", "BuiltInMethod", "String", "Iter", "Tuple", "Vec", "Range", "HashMap", "Fiber",
+    "Error", "StopIter", "RuntimeError", "AttributeError", "IndexError", "ImportError", "NameError", "TypeError", "ValueError", "MapIter", "FilterIter",
+];
+
+/// one line per built-in name: its value, or "missing <name>"
+pub fn builtin_census() -> Vec<Stmt> {
+    BUILTIN_NAMES
+        .iter()
+        .map(|n| st(StmtKind::Try(vec![print_stmt(var(n))], Some(("e".into(), vec![print_stmt(s(&format!("missing {}", n)))])), None)))
+        .collect()
+}
+
 fn guarded_import(importer: &str, path: &str, alias: Option<&str>) -> Stmt {
     let name = alias.unwrap_or(path);
     st(StmtKind::Try(
@@ -30,6 +44,8 @@ fn module_body(name: &str, imports: &[&str]) -> Vec<Stmt> {
         // built-ins are visible in every module
         print_stmt(Expr::Interp(vec![Part::Lit(format!("{} builtins: ", name)), Part::Expr(call(var("type"), vec![num(1.0)])), Part::Lit(" ".into()), Part::Expr(var("Error"))])),
     ];
+    // ... every one of them (one line each)
+    b.extend(builtin_census());
     for i in imports {
         b.push(guarded_import(name, i, None));
     }
@@ -350,7 +366,7 @@ pub fn run(ctx: &Ctx) -> Report {
     mcheck::fill_report(
         &mut report,
         &stats,
-        "every import graph over {main, a, b, c}: each of the 6 module-to-module edges, 3 self-loops and 3 edges from main independently present or absent (4096 graphs; the quick tier skips those where main imports nothing); every import inside a module sits in its own try/catch and is followed by a use; every module prints when its body runs, defines the same global names, and reads the built-ins; main reads, writes and calls through each module object, imports it again under an alias and compares identity, and probes that nothing leaked. Plus placements: import inside a function called 0/1/2 times, missing and uncompilable modules (caught, uncaught, aliased), a path with a directory, a three-module cycle. Plus exceptions that cross module frames: a module body that throws / imports a missing, an uncompilable, its importing (cycle) or a throwing module without a handler, or a function of another module that throws / fails an import / throws through its own finally; caught in the importer (main or a module) directly, through a function, or after a finally block that itself uses globals; straight after the handler the importer reads, defines and assigns its own globals and the check confirms where they landed. Plus fibers whose code lives in another module (made by a function of that module, stored in it, or built here from its function), run to their end from main or from a module that then uses its own globals at once. non-trivial = at least two module bodies ran, or an import failed.",
+        "every import graph over {main, a, b, c}: each of the 6 module-to-module edges, 3 self-loops and 3 edges from main independently present or absent (4096 graphs; the quick tier skips those where main imports nothing); every import inside a module sits in its own try/catch and is followed by a use; every module prints when its body runs, defines the same global names, and reads every one of the 30 built-in names; main reads, writes and calls through each module object, imports it again under an alias and compares identity, and probes that nothing leaked. Plus placements: import inside a function called 0/1/2 times, missing and uncompilable modules (caught, uncaught, aliased), a path with a directory, a three-module cycle. Plus exceptions that cross module frames: a module body that throws / imports a missing, an uncompilable, its importing (cycle) or a throwing module without a handler, or a function of another module that throws / fails an import / throws through its own finally; caught in the importer (main or a module) directly, through a function, or after a finally block that itself uses globals; straight after the handler the importer reads, defines and assigns its own globals and the check confirms where they landed. Plus fibers whose code lives in another module (made by a function of that module, stored in it, or built here from its function), run to their end from main or from a module that then uses its own globals at once. non-trivial = at least two module bodies ran, or an import failed.",
         json!({"modules": 4, "graphs": total}),
     );
     report.assumptions = vec!["importing a module again after its body threw is outside the property's statement and outside the alphabet (X)".into()];
